@@ -640,6 +640,20 @@ def check_evaluate(ctx, fb):
             if ok and not (init and init[0] == "call" and init[1] == "std::vec::from_elem" and init[2][1] == ("len", P(3))):
                 ok, why = False, "output vector is initialised as %s, specification len(outputs) elements" % sh(init, 100)
     if not ok and len(rets) == 1:
+        # the same selection written as `for (slot, &signal) in out.iter_mut().zip(outputs.iter()) { *slot = values[signal] }`
+        rv = eng.value_of(rets[0].store, rets[0].ret)
+        for b in [q for q in paths if q.kind == "backedge"]:
+            sts = [e for e in b.trace if e[0] == "store_through_value"]
+            if len(sts) != 1:
+                continue
+            tgt, val = norm_loopvars(sts[0][1]), norm_loopvars(sts[0][2])
+            others = [q for q in paths if q.kind == "backedge" and q.loop == b.loop and not any(e[0] == "store_through_value" for e in q.trace)]
+            if tgt[0] == "idx" and tgt[1] == rv and tgt[2][0] == "i" and not others:
+                i = tgt[2]
+                ok = cint(i[1]) == 0 and i[2] == ("min", ("len", rv), ("len", P(3))) and val == ("idx", vals, ("idx", P(3), i)) \
+                    and rv[0] == "call" and rv[1] == "std::vec::from_elem" and rv[2][1] == ("len", P(3))
+                why = "out becomes: %s := %s for every zipped pair; out initialised as %s" % (sh(tgt, 80), sh(val, 100), sh(rv, 80))
+    if not ok and len(rets) == 1:
         # the same selection written as outputs.iter().map(|&o| values[o]).collect()
         rv = eng.value_of(rets[0].store, rets[0].ret)
         t = rv
